@@ -39,8 +39,13 @@ package file
 
 //@ func CopyToDir
 //@ props C20
-//@ trusted
-//@ ensures true
+//@ os-calls-only[C20.copy-fs-steps] os.Stat os.Open os.MkdirAll os.Create os.(*File).Chmod os.(*File).Close io.Copy
+//@ at call os.Open: assert[C20.copy-source] arg0 == src && modeIsRegular(statMode(src))
+//@ at call os.MkdirAll: assert[C20.copy-destination] arg0 == dst
+//@ at call os.Create: assert[C20.copy-destination] arg0 == joinPath(dst, fileBase(src))
+//@ at call os.(*File).Chmod: assert[C20.copy-mode] arg0 == bitand(statMode(src), 0755)
+//@ at call io.Copy: assert[C20.copy-content] arg0 == box(destination) && arg1 == box(source) && fname(destination) == joinPath(dst, fileBase(src)) && fname(source) == src
+//@ ensures[C20.copy-regular] result == nil ==> modeIsRegular(statMode(src))
 
 //@ func CopyDirToDir$1
 //@ props C20
